@@ -53,6 +53,39 @@ def gen_inputs(ctx):
     return cases
 
 
+def hang_signature(parts, members, prev):
+    """non-termination is identified by the input it occurs on"""
+    import hashlib
+    key = enc_parts(parts) + " " + enc_parts(members) + " " + (enc_output(prev) if prev else "-")
+    return "sticky-nontermination:" + hashlib.sha1(key.encode()).hexdigest()[:10]
+
+
+def corpus_rounds(ctx, A, lines, impl, meta):
+    """corpus/C14/*.json: second-round inputs of recorded findings, run on every check"""
+    import json as _json
+    import pathlib
+    from checks.c15 import _sticky_round
+    for f in sorted((pathlib.Path(__file__).resolve().parent.parent.parent / "corpus" / "C14").glob("*.json")):
+        for c in _json.loads(f.read_text())["cases"]:
+            parts = [(t, list(ps)) for t, ps in c["parts"]]
+            members = [(m, list(sb)) for m, sb in c["members"]]
+            prev_out = [(m, [(t, list(ps)) for t, ps in items]) for m, items in c["prev"]]
+            try:
+                ORACLE_LOG.clear()
+                out2 = enc_output(_sticky_round(A, parts, members, {m: it for m, it in prev_out}, c.get("generation", -1), limit_s=0.5))
+            except Exception as e:  # noqa
+                if type(e).__name__ == "AssignorHang":
+                    ctx.violation(hang_signature(parts, members, prev_out),
+                                  f"sticky assignor does not return (CPU limit 0.5 s, then 5 s) on the second-round input of {f.name}: "
+                                  f"{enc_parts(parts)} {enc_parts(members)} prev {enc_output(prev_out)}",
+                                  {"cases": [{"parts": parts, "members": members, "prev": prev_out, "generation": c.get("generation", -1)}]})
+                    continue
+                raise
+            lines.append(f"c14 holds sticky {enc_parts(parts)} {enc_parts(members)} {out2}")
+            impl.append("true")
+            meta.append({"kind": "sticky", "parts": parts, "members": members, "out": out2, "prev": prev_out, "second_round": True})
+
+
 def second_rounds(A, rng, parts, members, first_out, lines, impl, meta):
     """two related second-round inputs carrying the first round's result as user data"""
     from checks.c15 import _sticky_round
@@ -114,6 +147,8 @@ def run(ctx):
     lines, impl, meta = [], [], []
     hangs = {}
     rng2 = ctx.rng("second-rounds")
+    if ctx.replay_cases is None:
+        corpus_rounds(ctx, A, lines, impl, meta)
     for parts, members in cases:
         P, M = enc_parts(parts), enc_parts(members)
         nontrivial = len(members) >= 2 and any(ps for _, ps in parts)
@@ -147,7 +182,7 @@ def run(ctx):
                         except Exception as e:  # noqa
                             if type(e).__name__ == "AssignorHang":
                                 hangs[kind] = hangs.get(kind, 0) + 1
-                                ctx.violation("sticky-nontermination", f"sticky assignor did not finish a second round after {P} {M}",
+                                ctx.violation(hang_signature(parts, members, None), f"sticky assignor did not finish a second round after {P} {M}",
                                               {"cases": [{"parts": parts, "members": members}]})
                             else:
                                 ctx.violation(f"sticky-raises:{type(e).__name__}", f"sticky assignor raised {e!r} in a second round after {P} {M}",
@@ -177,6 +212,9 @@ def run(ctx):
             except Exception as e:  # noqa
                 if type(e).__name__ == "AssignorHang":
                     hangs["sticky"] = hangs.get("sticky", 0) + 1
+                    ctx.violation(hang_signature(parts, members, None),
+                                  f"sticky assignor did not finish (topics grow + member joins) after {enc_parts(parts)} {enc_parts(members)}",
+                                  {"cases": [{"parts": parts, "members": members}]})
                     if hangs["sticky"] >= 2:
                         break
                     continue
@@ -212,6 +250,8 @@ def run(ctx):
             sig = f"sticky:{verdict}" if not m["out"].startswith("raise") else f"sticky:{m['out']}"
             if m["out"].startswith("raise:"):
                 sig = "sticky-raises:" + m["out"][6:]
+            if m["out"] == "raise:AssignorHang":
+                sig = hang_signature(m["parts"], m["members"], m.get("prev"))
             ctx.violation(sig, f"sticky assignor output violates {verdict} on {lines[i][15:200]}",
                           {"cases": [{"parts": m["parts"], "members": m["members"]}], "observed": m["out"],
                            "lean_statement": verdict})
